@@ -20,7 +20,7 @@ func init() {
 	fw.Register(&fw.Property{
 		ID:    "C10",
 		Level: "fault_enumeration",
-		Rule: "ENUMERATED for announcement lists of length <= 4: number of valid heads {1,2} x bad kind {non-writer author; forged author in three forms: victim identity block and key (signature fails at join), victim id with the attacker's key and signatures, victim identity block with the attacker's key; wrong database; wrong claimed hash in two forms: the address of another valid head, an unrelated address} x position of the bad head in the list x placement {same message, message before, message after the valid one} x receiver {empty, already holding a prefix} x fetch-completion order (remote block fetches of the receiver are held and released in a PRNG permutation; the observed completion order is part of the signature); followed by an honest re-announcement of the valid heads only. " +
+		Rule: "ENUMERATED for announcement lists of length <= 4: number of valid heads {1,2} x bad kind {non-writer author; forged author in four forms: victim identity block and key (signature fails at join), victim id with the attacker's key and signatures, victim identity block with the attacker's key, victim id and key with the attacker's identity signatures; wrong database; wrong claimed hash in two forms: the address of another valid head, an unrelated address} x position of the bad head in the list x placement {same message, message before, message after the valid one} x receiver {empty, already holding a prefix} x fetch-completion order (remote block fetches of the receiver are held and released in a PRNG permutation; the observed completion order is part of the signature); followed by an honest re-announcement of the valid heads only; in half of the forged-author cells the impersonated writer is one that has not written (nor been verified by anyone) before, and its first genuine entries are announced after the forgery. " +
 			"distinct = cell + observed fetch-completion order; non-trivial = the bad head was delivered, >= 2 remote fetches went through the shuffling gate, and the re-announcement was delivered",
 		Assumptions: []string{"whether a bad entry got in is C03/C04's statement and is not judged here", "structurally undecodable blocks are outside this property"},
 		Cases:       c10Cases,
@@ -31,7 +31,7 @@ func init() {
 	})
 }
 
-var c10Bad = []string{"non-writer", "forged-sig-fails", "forged-identity", "forged-own-key", "wrong-database", "wrong-hash", "wrong-hash-unrelated"}
+var c10Bad = []string{"non-writer", "forged-sig-fails", "forged-identity", "forged-own-key", "forged-id-key-bad-sigs", "wrong-database", "wrong-hash", "wrong-hash-unrelated"}
 var c10Place = []string{"same", "before", "after"}
 
 func c10Cases(tier string, seed int64) []fw.Case {
@@ -52,7 +52,7 @@ func c10Cases(tier string, seed int64) []fw.Case {
 						}
 						for _, prefix := range []bool{false, true} {
 							out = append(out, fw.Case{Idx: idx, Seed: rng.Int63(), P: map[string]interface{}{
-								"nv": nv, "bad": bad, "place": place, "pos": pos, "prefix": prefix, "type": storeTypes[idx%3], "nbad": 1 + (idx/7)%2,
+								"nv": nv, "bad": bad, "place": place, "pos": pos, "prefix": prefix, "type": storeTypes[idx%3], "nbad": 1 + (idx/7)%2, "fresh": strings.HasPrefix(bad, "forged") && idx%2 == 0,
 							}})
 							idx++
 						}
@@ -135,11 +135,13 @@ func c10Run(c fw.Case) fw.Verdict {
 		return p
 	}
 	C, W2, R := mk(), mk(), mk()
+	V3 := mk() // an authorised writer that has not written anything (and whose identity nobody has verified) yet
+	fresh := c.Bool("fresh")
 	A, err := NewAdv(e.W, "mallory")
 	if err != nil {
 		return fw.Verdict{Status: fw.Inconclusive, What: err.Error()}
 	}
-	db, err := e.CreateDB("c10", typ, C, []*sim.Peer{W2, R}, idsOf(C, W2))
+	db, err := e.CreateDB("c10", typ, C, []*sim.Peer{W2, R, V3}, idsOf(C, W2, V3))
 	if err != nil {
 		return fw.Verdict{Status: fw.Inconclusive, What: "create: " + err.Error()}
 	}
@@ -200,17 +202,23 @@ func c10Run(c fw.Case) fw.Verdict {
 	want := Closure(universe, vhs)
 
 	// bad heads
+	victim := C.DB.Identity()
+	if fresh {
+		victim = V3.DB.Identity()
+	}
 	mkBad := func(i int) (*entry.Entry, error) {
 		switch bad {
 		case "non-writer":
 			return A.Forge(fNonWriter, db.Addr, opPayload(typ, 50+i, "x"), vh, nil, maxT+1+i, nil)
 		case "forged-sig-fails":
-			return A.Forge(fBlockVictimKey, db.Addr, opPayload(typ, 50+i, "x"), vh, nil, maxT+1+i, C.DB.Identity())
+			return A.Forge(fBlockVictimKey, db.Addr, opPayload(typ, 50+i, "x"), vh, nil, maxT+1+i, victim)
 		case "forged-identity":
 			// the victim's id with the attacker's key and signatures: refused by the access controller's author check
-			return A.Forge(fCopiedID, db.Addr, opPayload(typ, 50+i, "x"), vh, nil, maxT+1+i, C.DB.Identity())
+			return A.Forge(fCopiedID, db.Addr, opPayload(typ, 50+i, "x"), vh, nil, maxT+1+i, victim)
+		case "forged-id-key-bad-sigs":
+			return A.Forge(fIDKeyBadSigs, db.Addr, opPayload(typ, 50+i, "x"), vh, nil, maxT+1+i, victim)
 		case "forged-own-key":
-			return A.Forge(fBlockOwnKey, db.Addr, opPayload(typ, 50+i, "x"), vh, nil, maxT+1+i, C.DB.Identity())
+			return A.Forge(fBlockOwnKey, db.Addr, opPayload(typ, 50+i, "x"), vh, nil, maxT+1+i, victim)
 		case "wrong-database":
 			op, err := ApplyOp(bg, db2.Stores[C.Idx], honestOp(typ, 70+i))
 			if err != nil {
@@ -281,6 +289,34 @@ func c10Run(c fw.Case) fw.Verdict {
 	}
 	// honest re-announcement of the valid heads only
 	re := send(valid)
+	if fresh {
+		// the impersonated writer now writes for the first time: its genuine entries, announced honestly
+		// AFTER the forged head, must become visible too
+		e.W.Settle()
+		sV := db.Stores[V3.Idx]
+		_ = sV.Sync(bg, cloneHeads(append(headsOf(sC), headsOf(sW)...)))
+		e.W.Settle()
+		e.W.DropAll()
+		for i := 0; i < 2; i++ {
+			if _, err := ApplyOp(bg, sV, honestOp(typ, 900+i)); err != nil {
+				return fw.Verdict{Status: fw.Violated, Key: fmt.Sprintf("bad=%s/outcome=genuine-writer-refused-after-forgery", bad), NonTrivial: true, Sig: fw.HashSig(nv, bad, place, pos, typ, fresh),
+					What: fmt.Sprintf("after a %s head naming an authorised writer was received, that writer's own genuine write is refused: %v", bad, err)}
+			}
+		}
+		e.W.Settle()
+		e.W.DropAll()
+		var vheads []*entry.Entry
+		var vhs2 []string
+		for _, en := range sV.OpLog().Values().Slice() {
+			universe[en.GetHash().String()] = infoOf(en)
+		}
+		for _, h := range headsOf(sV) {
+			vheads = append(vheads, h.Copy().(*entry.Entry))
+			vhs2 = append(vhs2, h.GetHash().String())
+		}
+		want = Closure(universe, append(vhs, vhs2...))
+		e.W.InjectPub(V3, R, db.Addr, HeadsMsg(db.Addr, vheads...))
+	}
 	held := func() (bool, string) {
 		for _, h := range want {
 			if !logHas(sR, mustCid(h)) {
@@ -303,7 +339,7 @@ func c10Run(c fw.Case) fw.Verdict {
 	v.Count("fetches_reordered", int64(fs.Reorder))
 	fs.mu.Unlock()
 	v.Count("valid_entries_expected", int64(len(want)))
-	cell := fw.HashSig(nv, bad, place, pos, c.Bool("prefix"), typ, c.Int("nbad", 1))
+	cell := fw.HashSig(nv, bad, place, pos, c.Bool("prefix"), typ, c.Int("nbad", 1), fresh)
 	fs.mu.Lock()
 	ord := strings.Join(fs.Order, ">")
 	nrel := len(fs.Order)
